@@ -40,6 +40,11 @@ C03AdaptiveCases(maxSteps, maxStore) ==
   { cs \in [m : {MChain}, cfg : [steps : 1..maxSteps, store : 1..maxStore, cut : {0, 1, 3}, solver : {"scipy"}, vec : BOOLEAN, form : {"nodes"}]] :
         cs.cfg.steps % cs.cfg.store = 0 /\ cs.cfg.steps >= 2 * cs.cfg.store }
 
+(* adaptive solver with a delayed edge (the edge becomes a past() term): x1' = 2, x2' = -4 + 2*x1(t - lag), exact at integer times *)
+MChainD(lag) == Mk(<<2, -4>>, <<0, 0>>, <<1, 3>>, <<<<>>, <<>>>>, <<1, 2>>, <<Ed(1, 2, 2, lag)>>)
+C10AdaptiveEdgeCases(maxSteps) ==
+  { [m |-> MChainD(l), cfg |-> Cfg(st, 1, 0, "scipy", ve)] : l \in {2, 3, 4}, st \in {4, maxSteps}, ve \in BOOLEAN }      \* a delay of one step is neglected by design
+
 (* ---- C09: all edge lists of bounded length over two sources and two targets ---- *)
 (* nodes: 1 = ramp source (x' = 2), 2 = exponential source (x' = 2x? no: x' = 2 + 0x with x0 = 1 gives odd values;
    we use x' = 2x, x0 = 1: 1, 3, 9, ... under Euler), 3 and 4 = pure integrators (targets).  kind: sources share a
